@@ -5,6 +5,8 @@ import HdVerif.Generated.TC03pyr
 import HdVerif.Generated.TC03stack
 import HdVerif.Generated.TC03segvol
 import HdVerif.Generated.TC03imgvol
+import HdVerif.Generated.TC03wireV
+import HdVerif.Generated.TC03wireI
 /-! # Geometry of derived images (C03)
 
 Executable model over `Rat` of how highdicom places a derived image in space:
